@@ -219,8 +219,24 @@ VARIANTS = {'chal-prefix16': lambda h: h[:16], 'chal-prefix31': lambda h: h[:31]
             'chal-longer': lambda h: h + b'\x00', 'chal-lastbit': lambda h: h[:-1] + bytes([h[-1] ^ 0x80])}
 
 
+_TMP = []
+
+
+def case_dir():
+    """one directory for the whole run: every case's cookie file lives under the *same* path as the previous case's (all cases of
+    a run share the process, as an application's connections do — what was read for an earlier connection is no answer now)"""
+    if not _TMP:
+        import atexit
+        _TMP.append(tempfile.mkdtemp(prefix='c04-'))
+        atexit.register(shutil.rmtree, _TMP[0], ignore_errors=True)
+    for name in os.listdir(_TMP[0]):
+        q = os.path.join(_TMP[0], name)
+        shutil.rmtree(q, ignore_errors=True) if os.path.isdir(q) else os.remove(q)
+    return _TMP[0]
+
+
 def run_impl(c):
-    tmp = tempfile.mkdtemp(prefix='c04-')
+    tmp = case_dir()
     real_urandom = os.urandom
     nonce = nonce_of(c)
     os.urandom = lambda n: nonce if n == 32 else real_urandom(n)
@@ -228,7 +244,6 @@ def run_impl(c):
         return Server(c, tmp).run()
     finally:
         os.urandom = real_urandom
-        shutil.rmtree(tmp, ignore_errors=True)
 
 
 def all_method_lists():
